@@ -217,6 +217,13 @@ type mFail struct{}
 
 func (mFail) MarshalJSON() ([]byte, error) { return nil, errors.New("MF!") }
 
+// error texts with control bytes, DEL, an invalid UTF-8 byte and an unprintable rune beyond the BMP (e.g. a coloured message)
+const ctlText = "MF\x1b[31m\x00\a\v\x7f\xff\U000E0001 \u2028!"
+
+type mFailCtl struct{}
+
+func (mFailCtl) MarshalJSON() ([]byte, error) { return nil, errors.New(ctlText) }
+
 type mGarbage struct{}
 
 func (mGarbage) MarshalJSON() ([]byte, error) { return []byte(`{"a":,}`), nil }
@@ -248,6 +255,8 @@ func runValues(out string) {
 		{"valuerNaN", lazy{slog.Float64Value(math.NaN())}}, {"valuerGroup", lazy{slog.GroupValue(slog.Int("a", 1))}},
 		{"valuerEmptyGroup", lazy{slog.GroupValue()}}, {"valuerMarshalFail", lazy{slog.AnyValue(mFail{})}},
 		{"big", strings.Repeat("x", 20000)}, {"bigbytes", bytes20k()},
+		{"marshalFailCtl", mFailCtl{}}, {"valuerMarshalFailCtl", lazy{slog.AnyValue(mFailCtl{})}}, {"errCtl", errors.New(ctlText)},
+		{"ansiCtl", logger.AnsiString{Prefix: "\x1b[31m", Value: ctlText}}, {"mapCtl", map[string]string{ctlText: ctlText}},
 		{"chan", make(chan int)}, {"func", func() {}}, {"strptrnil", (*string)(nil)}, {"jsonnumber", json.Number("12")},
 	}
 	for _, addSource := range []bool{false, true} {
